@@ -16,6 +16,7 @@ import CatiiProofs.HistoryLemmas
 import CatiiProofs.MaskGenBridge
 import CatiiProofs.ShiftGenBridge
 import CatiiProofs.AppendGenBridge
+import CatiiProofs.FilteredGenBridge
 /-!
 # C06 — index operations track NumPy on the dense array over any history
 
@@ -582,6 +583,21 @@ theorem generated_append_is_concatenation {i other : IIndex} (ok : AppendOK i ot
     simp only [this, if_false]
     exact hr
   exact append_refines ok hnd r hr'
+
+/-- `filtered` up to its final `shift_common()` as REGENERATED from the source on every run (`Gen.filteredPreGen`,
+tools/translate_filtered.py: the renumbering table `new_rowids[mask] = arange(new_length)`, per entry `mask[rowids]`,
+`rowids[m]`, `new_rowids[filtered_rowids]`, entries that keep no row left out), followed by the library-chosen re-encoding:
+the result is well-formed and holds, at the new number of every kept row, the cells of that row - `a[mask]` -/
+theorem generated_filtered_is_row_selection {i : IIndex} {mask : List Bool} {n' : Nat} (ok : FilterOK i mask n')
+    (hnd : i.ndim ≤ 2) (res : IIndex) (hr : shiftCommon (Gen.filteredPreGen i mask n') none = .ok res) :
+    WF res ∧ res.shape = n' :: i.shape.drop 1 ∧
+      ∀ r, mask.getD r false = true → ∀ hi ∈ hiCells (i.shape.drop 1),
+        denseAt res (rankIn mask r) hi = denseAt i r hi :=
+  filtered_refines ok hnd res (filtered_of_gen ok res hr)
+
+/-- ... and the regenerated construction is the modelled one for EVERY index, mask and length (no precondition) -/
+theorem generated_filtered_construction_is_the_modelled (i : IIndex) (mask : List Bool) (n : Nat) :
+    Gen.filteredPreGen i mask n = filteredPre i mask n := gen_filteredPre_eq i mask n
 
 /-- `items(force=True)` / `to_dict(force=True)`: every item lists exactly the rows where the dense array holds
 the item's value in the item's column -/
